@@ -55,7 +55,9 @@ FILENAMES = [None, b'./build.ninja']
 
 
 class Run:
-    def __init__(self, I, tree, groups, g1s=('plain', 'default-t1', 'pool2', 'helper'), g2s=('same', 'renamed', 'default', 'pooled')):
+    def __init__(self, I, tree, groups, g1s=('plain', 'default-t1', 'pool2', 'helper'), g2s=('same', 'renamed', 'default', 'pooled'),
+                 real_read=False):
+        self.real_read = real_read      # True: load::read is the real loader over manifest TEXT (only file reading is modelled)
         self.L = Layout(tree.path)
         self.groups = set(groups)
         self.g1s, self.g2s = list(g1s), list(g2s)
@@ -73,7 +75,7 @@ class Run:
             w.add_build([w.file(o) for o in outs], explicit=[w.file(i) for i in ins], order_only=[w.file(i) for i in oo],
                         cmdline=nm.encode(), pool=pool)
         g = w.graph()
-        self.worlds.append((w, gen))
+        self.worlds.append((w, dict(gen, steps=list(gen['steps']))))
         pools = Agg('SmallMap', [vec(Agg('tuple', [string(k), usize(v)]) for k, v in gen['pools'].items())])
         return L.mk('State', graph=g, db=Opaque('db::Writer'), hashes=Agg('Hashes', [hashmap()]),
                     default=vec(fileid(w.file(d)) for d in gen['default']), pools=pools)
@@ -98,6 +100,24 @@ class Run:
                       build_filename=none() if H.filename is None else some(string(H.filename)),
                       targets=vec(string(t.encode()) for t in H.targets), verbose=BoolV(False))
             return ok(ok(ba))
+
+        def text_order(gen):
+            return sorted(gen['steps'], key=lambda st: gen['order'].index(st[1][0]))
+
+        def on_real_read(I, args):
+            gi = len(H.worlds)
+            gen = H.gen1 if gi == 0 else H.gen2
+            H.reads.append(conc_bytes(I, as_slice(I, args[0])))
+            H.events.append(('load', gi + 1))
+            # statements appear in the text in interning order of their first output: that is the BuildId order
+            H.worlds.append((None, dict(gen, steps=text_order(gen))))
+
+        def m_read_manifest(I, args, callee):
+            name = conc_bytes(I, as_slice(I, args[0]))
+            if name != b'build.ninja':
+                return err(Opaque('io::Error', ('NotFound',)))
+            gen = H.worlds[-1][1]
+            return ok(Agg('Vec', [IntV(8, c) for c in manifest_text(gen).encode()] + [IntV(8, 0)]))
 
         def m_load_read(I, args, callee):
             name = conc_bytes(I, as_slice(I, args[0]))
@@ -171,9 +191,21 @@ class Run:
         I.hooks['dyn:update'] = lambda I, a, c: UNIT
         for nm in ('task_started', 'task_output', 'task_finished', 'log'):
             I.hooks['dyn:' + nm] = lambda I, a, c: UNIT
-        I.set_overrides([
+        from checks import dblib
+        H.disk = dblib.Disk()
+        real = []
+        if H.real_read:
+            for k in [k for k in I.hooks if k.startswith('enterfn:')]:
+                I.hooks.pop(k)
+            rd = [f for f in I.by_last.get('read', []) if f.file and f.file.endswith('load.rs') and f.line is None and '{closure' not in f.name]
+            if len(rd) != 1:
+                raise M.Unsupported('load::read not found: %r' % [f.name for f in rd])
+            I.hooks['enterfn:' + rd[0].name] = on_real_read
+            real = [(r'read_file_with_nul$', m_read_manifest)] + dblib.install(I, H)
+        else:
+            real = [(r'^(load::)?read$', m_load_read)]
+        I.set_overrides(real + [
             (r'(^|::)parse_args$', m_parse_args),
-            (r'^(load::)?read$', m_load_read),
             (r'(^|::)use_fancy$', lambda I, a, c: BoolV(False)),
             (r'DumbConsoleProgress::new$', lambda I, a, c: Agg('DumbConsoleProgress', [a[0], Opaque('cell')])),
             (r'^<DumbConsoleProgress as (progress::)?Progress>::', lambda I, a, c: UNIT),
@@ -202,6 +234,8 @@ class Run:
         self.judged = {}
         self.stdout = []
         self.nsucc = self.nfail = 0
+        from checks import dblib
+        self.disk = dblib.Disk()
         self.g1name = self.g1s[I.choose('g1', len(self.g1s))]
         self.g2name = self.g2s[I.choose('g2', len(self.g2s))]
         self.gen1 = G1_VARIANTS[self.g1name]()
@@ -316,13 +350,14 @@ class Run:
                     fail('C19', 'summary', '%d commands completed, summary line %r' % (self.nsucc, line))
 
 
-def run_run(ctx, out, pid, groups, g1s=None, g2s=None, budget=None, report=None):
+def run_run(ctx, out, pid, groups, g1s=None, g2s=None, budget=None, report=None, real_read=False):
     from lib.driver import Violation
     from lib.mcheck import finish_exploration, load_interp, merge_cov
     I = load_interp(ctx)
-    H = Run(I, ctx.tree, groups, g1s or ('plain', 'default-t1', 'pool2', 'helper'), g2s or ('same', 'renamed', 'default', 'pooled'))
+    H = Run(I, ctx.tree, groups, g1s or ('plain', 'default-t1', 'pool2', 'helper'), g2s or ('same', 'renamed', 'default', 'pooled'),
+            real_read=real_read)
     ex = M.explore(I, H, jobs=ctx.jobs, time_budget=budget or (1500 if ctx.quick() else 4 * 3600), keep_summaries=6)
-    name = 'run_impl over two manifest generations (%s -> %s), targets %r, -f %r' % ('/'.join(H.g1s), '/'.join(H.g2s), TARGETS, FILENAMES)
+    name = ('run_impl with the REAL load::read over manifest text' if real_read else 'run_impl') + ' over two manifest generations (%s -> %s), targets %r, -f %r' % ('/'.join(H.g1s), '/'.join(H.g2s), TARGETS, FILENAMES)
     merge_cov(out.coverage, name, ex)
     finish_exploration(out, ex, name)
     for key, lst in ex.failures.items():
